@@ -19,6 +19,13 @@ def build(rnd_seed, cfg):
     r = random.Random(rnd_seed)
     dist, tstr, bstr, tdesc, lb, ub = make_target(r, cfg["target"], cfg["d"], cfg["boxed"])
     q0 = inside_start(r, cfg["d"], lb, ub)
+    # a user-written target may return its misfit as an array object ((1, 1), (1,), 0-d) instead of a float: a mutable value that the sampler
+    # must store, not modify (a stream of its own, deterministic in rnd_seed like everything else here)
+    rr = random.Random(rnd_seed ^ 0x1B873593)
+    if rr.random() < 0.25:
+        from .c02 import ArrayValued
+        cfg["misfit_returned_as"] = rr.choice(["0d", "(1,)", "(1,1)"])
+        ArrayValued.install(dist, cfg["misfit_returned_as"])
     base = S.RWMH if cfg["sampler"] == "RWMH" else S.HMC
     Snap = snapshot_sampler_class(base)
     s = Snap(seed=cfg["seed"])
@@ -377,7 +384,7 @@ def run(tier, seed):
                             break
                     for j in range(P // t):
                         with np.errstate(all="ignore"):
-                            re = dist.misfit(arr[:-1, [j]].copy())
+                            re = float(np.asarray(dist.misfit(arr[:-1, [j]].copy()), dtype=float).reshape(-1)[0])
                         if not (common.bits_equal(float(re), float(arr[-1, j])) or common.close(re, arr[-1, j], 1e-13, 0)):
                             problems.append(f"stored misfit of column {j} is not the target's misfit at the stored state")
                             break
